@@ -81,11 +81,17 @@ def run(ctx):
         for h in HARNESSES:
             (hn, src, tm, argf), hflags = h[:4], (h[4] if len(h) > 4 else [])
             specs.append({"name": "c20_%s_%s" % (hn, re.sub(r"\W", "_", vl)), "src": src, "flags": SAN + extra + hflags, "cxx": "clang++", "opt": opt[0], "hn": hn, "vl": vl, "tm": tm, "argf": argf})
+    # the constructor unit of C17 (generated from MC_C17's enumeration) in an intrinsic build: conversion constructors between packed and
+    # aligned types load / store whole registers; their sources live at the least alignment the type guarantees
+    from props import c17
+    tu, cflags, gdir = c17.ctor_unit_source(ctx, "op")
+    specs.append({"name": "c20_c17opctor", "src": tu, "flags": SAN + cflags + ["-I" + gdir], "cxx": "clang++", "opt": "-O1", "hn": "c17opctor", "vl": "sse2-intrinsics-O1", "tm": "Trace_C17",
+                  "argf": (lambda tr, pairs: [tr])})
     built = vlib.build_many(specs)
     todo = []
     for sp, (b, lg) in zip(specs, built):
         if b is None:
-            if sp["vl"].startswith("pure"):
+            if sp["vl"].startswith("pure") or sp["hn"] == "c17opctor":
                 rp = ctx.write_replay("compile-%s-%s" % (sp["hn"], sp["vl"]), [], lg[-6000:])
                 ctx.violation("harness %s does not compile in the sanitizer build %s" % (sp["hn"], sp["vl"]), rp)
             else:
@@ -123,6 +129,11 @@ def run(ctx):
                     where = d.get("ubw", "")
                     if "stl_function.h" in where:        # std::plus / std::minus / std::multiplies are only ever called by GLM's compute_vec_* helpers
                         where = "glm/ (via " + where.split("/")[-1] + ")"
+                    if sp["hn"] == "c17opctor" and "float-cast-overflow" in where:
+                        # the constructors convert with static_cast by definition; tagged sources that the destination type cannot represent
+                        # (negative floats to unsigned ...) make the cast itself undefined: an input outside the domain of static_cast, not a defect of GLM
+                        harness_ub["static_cast of an unrepresentable tagged value (" + where.split(" ")[-1] + ")"] = harness_ub.get("static_cast of an unrepresentable tagged value (" + where.split(" ")[-1] + ")", 0) + 1
+                        continue
                     if not where.startswith("glm/"):
                         harness_ub[where] = harness_ub.get(where, 0) + 1     # undefined behaviour in the harness's own input construction: not GLM's
                         continue
@@ -194,7 +205,7 @@ def replay(ctx, path):
     """Re-judge the recorded reporting events: the harness's trace specification says which are inside the documented domain."""
     base = os.path.basename(path)
     m = re.match(r"C20-ub-(c\d\d[a-z]*)-", base)
-    tm = {h[0]: h[2] for h in HARNESSES}.get(m.group(1)) if m else None
+    tm = dict([(h[0], h[2]) for h in HARNESSES] + [("c17opctor", "Trace_C17")]).get(m.group(1)) if m else None
     if not tm:
         vlib.log("[replay] %s is not a per-event sanitizer replay (see its .note.txt)" % base)
         return 2
